@@ -75,6 +75,10 @@ impl ErrorKind {
 
 /// R5: `.wrap(..)` / `.with_wrap(..)` only add message context; `kind()` is preserved
 /// (that statement is itself proved from the repository text of `with_wrap` in U16).
+//@frozen src/error.rs :: impl ErrorExt for ErrorImpl fn with_wrap
+//@frozen src/error.rs :: impl ErrorExt for Error fn with_wrap
+//@frozen src/error.rs :: impl ErrorExt for Result<T,E> fn with_wrap
+//@frozen src/error.rs :: impl ErrorExt fn wrap
 pub trait ErrorExt: Sized {
     spec fn wrapped_of(self, inner: Self) -> bool;
     fn wrap<S>(self, context: S) -> (r: Self) ensures r.wrapped_of(self);
